@@ -200,6 +200,21 @@ func init() {
 			Loader string            `json:"loader"`
 			Base   string            `json:"base"`
 			GInsts []json.RawMessage `json:"ginsts"`
+			// AliasInst (optional; default: every instance is built from its descriptor alone): the []any found at IPath inside
+			// instance Inst is not an independent slice but a RE-SLICE [:N] of the very []any found at SPath inside the value
+			// the schema lists — Enum[Index] of node Node, or its Const (Field) — as in `vals := []any{…}; s.Enum = []any{vals};
+			// rs.Validate(vals[:2])`. Paths step through []any (index) and map[string]any (key). For N beyond the listed
+			// slice's length the listed slice gets spare capacity holding the instance's further elements. The instance
+			// descriptor still says what the instance holds (checked), for the model and the oracle.
+			AliasInst []struct {
+				Inst  int    `json:"inst"`
+				IPath []any  `json:"ipath"`
+				Node  int    `json:"node"`
+				Field string `json:"field"`
+				Index int    `json:"index"`
+				SPath []any  `json:"spath"`
+				N     int    `json:"n"`
+			} `json:"aliasInst"`
 		}
 		if err := json.Unmarshal(args, &a); err != nil {
 			return nil, err
@@ -207,6 +222,58 @@ func init() {
 		s, nodes, err := buildSchemas(a.Desc)
 		if err != nil {
 			return nil, err
+		}
+		var ginsts []any // built up front only when instances alias the schema; otherwise after Resolve, as before
+		if len(a.AliasInst) > 0 {
+			ginsts = make([]any, len(a.GInsts))
+			for i, g := range a.GInsts {
+				if ginsts[i], err = buildAny(g); err != nil {
+					return nil, err
+				}
+			}
+		}
+		for _, al := range a.AliasInst {
+			if al.Inst < 0 || al.Inst >= len(ginsts) || al.Node < 0 || al.Node >= len(nodes) {
+				return nil, fmt.Errorf("aliasInst: bad index")
+			}
+			nd := nodes[al.Node]
+			var sroot *any
+			switch al.Field {
+			case "Const":
+				sroot = nd.Const
+			case "Enum":
+				if al.Index >= 0 && al.Index < len(nd.Enum) {
+					sroot = &nd.Enum[al.Index]
+				}
+			}
+			if sroot == nil {
+				return nil, fmt.Errorf("aliasInst: no such listed value")
+			}
+			sslot, err := slotAt(sroot, al.SPath)
+			if err != nil {
+				return nil, err
+			}
+			islot, err := slotAt(&ginsts[al.Inst], al.IPath)
+			if err != nil {
+				return nil, err
+			}
+			listed, ok1 := sslot.get().([]any)
+			want, ok2 := islot.get().([]any)
+			if !ok1 || !ok2 || listed == nil || al.N != len(want) {
+				return nil, fmt.Errorf("aliasInst: both ends must be []any and n the instance's length")
+			}
+			if al.N > len(listed) {
+				big := make([]any, al.N)
+				copy(big, listed)
+				copy(big[len(listed):], want[len(listed):])
+				listed = big[:len(listed)]
+				sslot.set(listed)
+			}
+			alias := listed[:al.N]
+			if !reflect.DeepEqual(alias, want) {
+				return nil, fmt.Errorf("aliasInst: the re-slice does not hold what the instance descriptor says")
+			}
+			islot.set(alias)
 		}
 		opts := &jsonschema.ResolveOptions{BaseURI: a.Base, ValidateDefaults: a.Loader == "validate-defaults"}
 		calls := 0
@@ -261,9 +328,11 @@ func init() {
 		}
 		out["outcome"] = "resolved"
 		var vs []string
-		for _, g := range a.GInsts {
-			v, err := buildAny(g)
-			if err != nil {
+		for i, g := range a.GInsts {
+			var v any
+			if ginsts != nil {
+				v = ginsts[i]
+			} else if v, err = buildAny(g); err != nil {
 				return nil, err
 			}
 			vs = append(vs, safeValidate(rs, v))
@@ -598,4 +667,35 @@ func init() {
 		}
 		return map[string]any{"outcome": "ok", "mismatches": diff, "first": outs[0]}, nil
 	})
+}
+
+// anySlot is a settable place holding an `any`: a variable, an element of a []any or an entry of a map[string]any.
+type anySlot struct {
+	get func() any
+	set func(any)
+}
+
+// slotAt walks from *root through []any (int steps) and map[string]any (string steps).
+func slotAt(root *any, path []any) (anySlot, error) {
+	cur := anySlot{get: func() any { return *root }, set: func(v any) { *root = v }}
+	for _, step := range path {
+		switch c := cur.get().(type) {
+		case []any:
+			f, ok := step.(float64)
+			i := int(f)
+			if !ok || i < 0 || i >= len(c) {
+				return cur, fmt.Errorf("path: bad index %v", step)
+			}
+			cur = anySlot{get: func() any { return c[i] }, set: func(v any) { c[i] = v }}
+		case map[string]any:
+			k, ok := step.(string)
+			if _, has := c[k]; !ok || !has {
+				return cur, fmt.Errorf("path: bad key %v", step)
+			}
+			cur = anySlot{get: func() any { return c[k] }, set: func(v any) { c[k] = v }}
+		default:
+			return cur, fmt.Errorf("path: step %v into a %T", step, c)
+		}
+	}
+	return cur, nil
 }
